@@ -17,6 +17,32 @@ open Dawgs.C20
 
 /-! ## (b) entry names: `sanitizeArchivePath` with Go's `path.Clean`, for ALL strings -/
 
+/-- The model of Go's `path.Clean`, for ALL strings (rooted or not, with `..`, `.`, repeated and trailing
+slashes): the result is never empty; its component list is a block of `..` (empty when the path is rooted:
+a rooted path never climbs above `/`) followed by ordinary components only — none empty, none `.`, no `..`
+after an ordinary component, no separator inside; and `Clean` is idempotent (the documented contract:
+the result is the shortest equivalent path and is itself clean). Compared with the real `path.Clean` and
+`filepath.Join` on every generated name by the `c20path` suite. -/
+theorem clean_spec (s : Str) :
+    pathClean s ≠ [] ∧ pathClean (pathClean s) = pathClean s ∧
+    ∃ n ns, cleanComps (isAbs s) (splitSlash s) = List.replicate n dotdot ++ ns ∧
+      (∀ c ∈ ns, c ≠ [] ∧ c ≠ dot ∧ c ≠ dotdot ∧ '/' ∉ c) ∧ (isAbs s = true → n = 0) := by
+  refine ⟨?_, pathClean_idempotent s, ?_⟩
+  · unfold pathClean
+    split
+    · decide
+    · split
+      · simp
+      · split
+        · decide
+        · rename_i hne
+          exact joinSlash_ne_nil hne (cleanComps_nonempty false _)
+  · obtain ⟨n, ns, hL, hns, hr⟩ := cleanComps_shape (isAbs s) (splitSlash s)
+    refine ⟨n, ns, hL, ?_, hr⟩
+    intro c hc
+    have hm : c ∈ cleanComps (isAbs s) (splitSlash s) := by rw [hL]; exact List.mem_append_right _ hc
+    exact ⟨(hns c hc).1, (hns c hc).2.1, (hns c hc).2.2, cleanComps_noslash _ s c hm⟩
+
 /-- Whatever `sanitizeArchivePath` accepts — for every string `n` whatsoever (absolute, `C:` volume,
 backslash, `..`, `./`, trailing slash, white space, NUL, any Unicode) — is non-empty, relative, free of
 backslashes, has only ordinary components (none empty, none `.`, none `..`), and joined to ANY absolute
